@@ -1042,8 +1042,23 @@ def r_composer_errors(ctx, repo):
                       'constructor\'s decision, reported as ConstructorError) are now rejected at the wrong stage' % m.qualname)
         elif sites:
             rule.ok(m.loc(sites[0]), '%s: %d ComposerError site(s)' % (m.name, len(sites)))
-    if n < 3:
-        raise AnalysisError('only %d ComposerError sites found in the composer (3 confirmed)' % n)
+    if n == 0:
+        raise AnalysisError('no ComposerError site found in the composer (3 confirmed)')
+    # the three errors are required, too: each is raised by the LibYAML binding's composer as well (the sibling), and C13 / C12
+    # state them (undefined alias, duplicate anchor, a second document where one was asked for)
+    for name, need in sorted(allowed.items()):
+        m = c.methods.get(name)
+        if m is None:
+            raise AnalysisError('composer.Composer.%s has vanished' % name)
+        have = len([r for r in walk_function(m.node) if isinstance(r, ast.Raise) and r.exc is not None
+                    and 'ComposerError' in norm(r.exc.func if isinstance(r.exc, ast.Call) else r.exc)])
+        if have < need:
+            rule.fail('%s|missing-raise' % m.qualname, m.module.rel, m.node.lineno, m.qualname, 'raise ComposerError(...)',
+                      '%s raises ComposerError at %d place(s), %d are required (%s): the pure-Python composer accepts what the '
+                      'LibYAML composer and the specification reject' % (
+                          m.qualname, have, need,
+                          'a second document in a single-document load' if name == 'get_single_node'
+                          else 'undefined alias and duplicate anchor'))
     return rule
 
 
